@@ -154,6 +154,17 @@ def coupling_harness(cname, mask, shape4d, mode, props, hidden=None, with_contex
         c = h.inp("context", (2, 2)) if with_context else None
         with all_splines_stubbed() as st:
             h.stubs = st.stubs
+            if mode == "twice":
+                # two consecutive evaluation-mode calls under no_grad with the same inputs and DIFFERENT contexts: the second call must be a
+                # function of its own arguments only (no memo of the first call may leak into it)
+                c2 = h.inp("context2", (2, 2))
+                h.c2 = c2
+                with torch.no_grad():
+                    r1 = m.forward(x, c)
+                    n1 = len(nets[0].shown)
+                    r2 = m.forward(x, c2)
+                h.n1 = n1
+                return r1, r2
             if mode == "forward":
                 return m.forward(x, c)
             if mode == "inverse":
@@ -169,6 +180,15 @@ def coupling_harness(cname, mask, shape4d, mode, props, hidden=None, with_contex
         px = P(h.inputs["x"])
         B = px.shape[0]
         xid = {px[idx].get_id(): idx for idx in np.ndindex(*px.shape)}
+        if mode == "twice":
+            (o1, l1), (o2, l2) = value
+            c1ids = {t.get_id() for t in P(h.inputs["context"]).reshape(-1)}
+            shown = h.nets[0].shown
+            ok = h.n1 == 1 and len(shown) == 2 and shown[1][1] is h.c2
+            ensure(h, ctx, "C07.second-call-consults-conditioner-with-its-own-context", z3.BoolVal(bool(ok)))
+            leak = [s_ for t in list(P(o2).reshape(-1)) + list(P(l2).reshape(-1)) for s_ in base_symbols(t) if s_ in c1ids]
+            ensure(h, ctx, "C07.second-call-independent-of-first-context", z3.BoolVal(not leak))
+            return
         if mode in ("forward", "inverse"):
             out, ld = value
             po, pl = P(out), P(ld)
@@ -270,6 +290,10 @@ def coupling_harness(cname, mask, shape4d, mode, props, hidden=None, with_contex
     def native_call(h, inp):
         m = native_module(inp)
         x = tt(inp["x"]); c = tt(inp["context"]) if with_context and not shape4d else None
+        if mode == "twice":
+            with torch.no_grad():
+                r1 = m.forward(x, c); r2 = m.forward(x, tt(inp["context2"]))
+            return r1, r2
         if mode == "forward": return m.forward(x, c)
         if mode == "inverse": return m.inverse(x, c)
         y, ldf = m.forward(x, c)
@@ -280,6 +304,11 @@ def coupling_harness(cname, mask, shape4d, mode, props, hidden=None, with_contex
         m = native_module(inp)
         x = tt(inp["x"]); c = tt(inp["context"]) if with_context and not shape4d else None
         out = {}
+        if mode == "twice":
+            with torch.no_grad():
+                fresh2 = native_module(inp).forward(x, tt(inp["context2"]))
+            same = bool(torch.allclose(res[1][0], fresh2[0], atol=1e-7)) and bool(torch.allclose(res[1][1], fresh2[1], atol=1e-7))
+            return {"C07.second-call-consults-conditioner-with-its-own-context": same, "C07.second-call-independent-of-first-context": same}
         if mode in ("forward", "inverse"):
             o, ld = res
             f = m.forward if mode == "forward" else m.inverse
@@ -323,6 +352,8 @@ def coupling_harness(cname, mask, shape4d, mode, props, hidden=None, with_contex
         d = {"x": rng.uniform(lo, hi, size=shape)}
         if with_context:
             d["context"] = rng.normal(size=(2, 2))
+        if mode == "twice":
+            d["context2"] = rng.normal(size=(2, 2))
         return d
 
     hid = f"coupling_{cname}[mask={','.join(str(v) for v in mask)},{'4d' if shape4d else '2d'},{mode}{',hidden' if hidden else ''}{',ctx' if with_context else ''}{',uncond' if uncond else ''}]"
@@ -348,6 +379,9 @@ def coupling_harnesses(props, tier, modes=("forward", "inverse")):
                         hs.append(coupling_harness(cname, mask, shape4d, mode, props))
     for mode in modes:
         hs.append(coupling_harness("Affine", [1, 0, 1], False, mode, props, with_context=True))
+        if mode == "forward" and "C07" in props:
+            hs.append(coupling_harness("Affine", [1, 0], False, "twice", props, with_context=True))
+            hs.append(coupling_harness("PwRQTails", [0, 1], False, "twice", props, with_context=True))
         hs.append(coupling_harness("PwRQTails", [0, 1], False, mode, props, hidden=4))
         hs.append(coupling_harness("PwQuadratic", [0, 1], True, mode, props, hidden=4))
         for cname in ("PwRQTails", "PwLinear") if tier == "quick" else ("PwRQTails", "PwRQ", "PwLinear", "PwQuadratic", "PwCubic"):
